@@ -50,6 +50,7 @@ type opts struct {
 
 func runOne(e engine.Engine, c *simrt.Chooser, param int, o opts, stats *engine.Stats, keep bool) *runResult {
 	log := simrt.NewLog(keep)
+	simrt.ResetGlobals()
 	ctx := &engine.RunCtx{C: c, Log: log, Tier: o.tier, Race: o.race, Stats: stats, Known: o.known, KeepTrace: keep, Param: param}
 	func() {
 		defer func() {
